@@ -55,6 +55,9 @@ def main():
   ap.add_argument("--src")
   ap.add_argument("--checks", default="all")
   ap.add_argument("--sid", default=None, help="id under /verif/seeded (default <PROP>-<mN>)")
+  ap.add_argument("--recheck", action="store_true",
+                  help="keep the recorded confirmation steps (patch unchanged) and only "
+                       "re-run the detection by the registered checks on /repo")
   args = ap.parse_args()
   src = args.src or f"/tmp/mut/{args.prop}/MUTANTS/{args.m}"
   sid = args.sid or f"{args.prop}-{args.m}"
@@ -76,13 +79,25 @@ def main():
   meta = {"id": sid, "property": args.prop, "steps": {}}
   # demo scripts mention the agent's own worktree path: run on a copy that
   # points at our scratch VM instead
-  text = open(os.path.join(dst, demo)).read().replace(f"/tmp/mut/{args.prop}", vm)
+  text = open(os.path.join(dst, demo)).read()
+  for root in ("/tmp/mut3", "/tmp/mut2", "/tmp/mut"):
+    text = text.replace(f"{root}/{args.prop}", vm)
   os.makedirs(os.path.join(vm, "MUTANTS", args.m), exist_ok=True)
   demo_run = os.path.join(vm, "MUTANTS", args.m, demo)
   open(demo_run, "w").write(text)
   run_demo[-1] = demo_run
   cxx = any(l.startswith("+++ b/pytype/typegraph/") and l.strip().endswith((".cc", ".h"))
             for l in open(patch))
+  old_meta = {}
+  if args.recheck and os.path.exists(os.path.join(dst, "meta.json")):
+    old_meta = json.load(open(os.path.join(dst, "meta.json")))
+  if args.recheck and "confirmed" in old_meta:
+    meta["steps"] = old_meta.get("steps", {})
+    meta["confirmed"] = old_meta["confirmed"]
+    for k in ("summary", "note"):
+      if k in old_meta:
+        meta[k] = old_meta[k]
+    return detect(args, meta, patch, dst)
   rc, out = sh(["git", "apply", "--check", patch], cwd=vm)
   if rc != 0:
     print("patch does not apply to HEAD:", out[-400:]); meta["steps"]["apply"] = out[-400:]
@@ -109,6 +124,11 @@ def main():
     shutil.rmtree(os.path.join(vm, "MUTANTS"), ignore_errors=True)
   confirmed = rc0 == 0 and rct == 0 and rc1 != 0
   meta["confirmed"] = confirmed
+  return detect(args, meta, patch, dst)
+
+
+def detect(args, meta, patch, dst):
+  import concurrent.futures
   # detection by the registered checks, on /repo itself
   rc, out = sh(["git", "-C", "/repo", "status", "--porcelain"])
   if out.strip():
@@ -119,9 +139,12 @@ def main():
     man = json.load(open(os.path.join(VERIF, "MANIFEST.json")))
     props = [c["property_id"] for c in man["checks"]] if args.checks == "all" \
         else args.checks.split(",")
-    for p in props:
-      rc, o = sh(["/venv/bin/python", "-I", os.path.join(VERIF, "check.py"), p,
-                  "--no-evidence"], cwd=VERIF)
+    def one(p):
+      return p, sh(["/venv/bin/python", "-I", os.path.join(VERIF, "check.py"), p,
+                    "--no-evidence"], cwd=VERIF)
+    with concurrent.futures.ThreadPoolExecutor(8) as ex:
+      results = list(ex.map(one, props))
+    for p, (rc, o) in results:
       lines = [l for l in o.split("\n") if " rule=" in l and "instance=" in l][:4]
       if rc != 0:
         detected[p] = {"exit": rc, "reports": lines or
